@@ -285,7 +285,8 @@ def cache_yaml(c):
 def config_yaml(spec):
     conf = {
         'services': {'wms': {'srs': list(spec['wms_srs']), 'md': {'title': 'vcheck'}},
-                     'tms': {'use_grid_names': True}},
+                     'tms': {'use_grid_names': True},
+                     'wmts': {'featureinfo_formats': [{'mimetype': 'text/plain', 'suffix': 'text'}]}},
         'grids': dict((name, grid_yaml(g)) for name, g in spec['grids'].items()),
         'sources': {spec['source']['name']: source_yaml(spec)},
         'caches': dict((c['name'], cache_yaml(c)) for c in spec['caches']),
